@@ -11,6 +11,13 @@ C28 translator (tie T, fail-closed): extracts from the source, on every run,
     Requestant.checkPersisted (ioflo/aio/http/serving.py), and StoreTimer.expired / restart
     (ioflo/aid/timing.py), compared with the exact shapes the hand model assumes.
 
+  * the CONFIGURATION PATH of the idle timeout and of the clock: which keyword arguments
+    Valet.__init__ / Porter.__init__ forward to the Server / ServerTls they construct (scheme http /
+    https), and Server.serviceAxes / ServerTls.serviceAxes to each Incomer / IncomerTls
+    (`timeout=self.timeout`, `store=self.store`: present -> true, absent -> false, any other value ->
+    TranslationError), the `X if X is not None else self.Timeout` defaulting at every level, and the
+    class defaults `Timeout` (in 1/8 s, must be a whole number of eighths).
+
 Output: coq/gen/C28_Refresh.v
 """
 import ast
@@ -60,6 +67,99 @@ def refresh_position(fn, var):
 def expect(cond, what):
     if not cond:
         raise TranslationError("unexpected shape: " + what)
+
+
+def class_const(cls, name):
+    """value of a class-level `name = <float/int constant>` or None if the class does not define it"""
+    for n in cls.body:
+        if isinstance(n, ast.Assign) and len(n.targets) == 1 and ast.unparse(n.targets[0]) == name:
+            if isinstance(n.value, ast.Constant) and isinstance(n.value.value, (int, float)) \
+                    and not isinstance(n.value.value, bool):
+                return float(n.value.value)
+            raise TranslationError("%s.%s is not a numeric constant" % (cls.name, name))
+    return None
+
+
+def eighths(x, what):
+    v = x * 8.0
+    if v != int(v):
+        raise TranslationError("%s = %r s is not a whole number of 1/8 s" % (what, x))
+    return int(v)
+
+
+def ctor_calls(fn, name):
+    return [n for n in ast.walk(fn) if isinstance(n, ast.Call) and ast.unparse(n.func) == name]
+
+
+def forwards(call, kw, value, where):
+    """True iff the call passes kw=value, False iff it does not pass kw at all; else fail"""
+    hits = [k for k in call.keywords if k.arg == kw]
+    if not hits:
+        return False
+    if len(hits) == 1 and ast.unparse(hits[0].value) == value:
+        return True
+    raise TranslationError("%s: %s is passed as %s, expected %s" % (where, kw, ast.unparse(hits[0].value), value))
+
+
+def defaulting(fn, where):
+    src = ast.unparse(fn)
+    expect("self.timeout = timeout if timeout is not None else self.Timeout" in src, "%s: timeout defaulting" % where)
+    expect("self.store = store or storing.Store(stamp=0.0)" in src, "%s: store defaulting" % where)
+    n = [a for a in ast.walk(fn) if isinstance(a, ast.Assign) and any(ast.unparse(t) == "self.timeout" for t in a.targets)]
+    expect(len(n) == 1, "%s: exactly one assignment to self.timeout" % where)
+
+
+def config_path(srv, http):
+    out = {}
+    # front ends
+    for cname in ("Valet", "Porter"):
+        init = method(http[cname], "__init__")
+        defaulting(init, "%s.__init__" % cname)
+        d = class_const(http[cname], "Timeout")
+        expect(d is not None, "%s.Timeout" % cname)
+        out["%s_default_x8" % cname] = eighths(d, "%s.Timeout" % cname)
+        for scheme, ctor in (("http", "Server"), ("https", "ServerTls")):
+            calls = ctor_calls(init, ctor)
+            expect(len(calls) == 1, "%s.__init__ constructs exactly one %s" % (cname, ctor))
+            w = "%s.__init__ -> %s(...)" % (cname, ctor)
+            out["%s_%s_forwards_timeout" % (cname, scheme)] = forwards(calls[0], "timeout", "self.timeout", w)
+            out["%s_%s_forwards_store" % (cname, scheme)] = forwards(calls[0], "store", "self.store", w)
+    # servers
+    defaulting(method(srv["Server"], "__init__"), "Server.__init__")
+    expect([ast.unparse(b) for b in srv["ServerTls"].bases] == ["Server"], "ServerTls bases")
+    tinit = method(srv["ServerTls"], "__init__")
+    expect("super(ServerTls, self).__init__(**kwa)" in ast.unparse(tinit), "ServerTls.__init__ delegates **kwa")
+    expect(not [a for a in ast.walk(tinit) if isinstance(a, ast.Assign)
+                and any(ast.unparse(t) in ("self.timeout", "self.store") for t in a.targets)],
+           "ServerTls.__init__ must not reassign timeout/store")
+    d = class_const(srv["Server"], "Timeout")
+    expect(d is not None, "Server.Timeout")
+    out["Server_default_x8"] = eighths(d, "Server.Timeout")
+    dt = class_const(srv["ServerTls"], "Timeout")
+    out["ServerTls_default_x8"] = eighths(dt if dt is not None else d, "ServerTls.Timeout")
+    for cname, ctor in (("Server", "Incomer"), ("ServerTls", "IncomerTls")):
+        fn = method(srv[cname], "serviceAxes")
+        expect(fn is not None, "%s.serviceAxes" % cname)
+        calls = ctor_calls(fn, ctor)
+        expect(len(calls) == 1, "%s.serviceAxes constructs exactly one %s" % (cname, ctor))
+        w = "%s.serviceAxes -> %s(...)" % (cname, ctor)
+        out["%s_forwards_timeout" % cname] = forwards(calls[0], "timeout", "self.timeout", w)
+        out["%s_forwards_store" % cname] = forwards(calls[0], "store", "self.store", w)
+    # the handshake loop moves the SAME incomer object into .ixes
+    cx = ast.unparse(method(srv["ServerTls"], "serviceCxes"))
+    expect("self.ixes[ca] = cx" in cx and "IncomerTls(" not in cx, "ServerTls.serviceCxes moves cx")
+    # connections
+    d = class_const(srv["Incomer"], "Timeout")
+    expect(d is not None, "Incomer.Timeout")
+    out["Incomer_default_x8"] = eighths(d, "Incomer.Timeout")
+    dt = class_const(srv["IncomerTls"], "Timeout")
+    out["IncomerTls_default_x8"] = eighths(dt if dt is not None else d, "IncomerTls.Timeout")
+    iinit = method(srv["IncomerTls"], "__init__")
+    expect("super(IncomerTls, self).__init__(**kwa)" in ast.unparse(iinit), "IncomerTls.__init__ delegates **kwa")
+    expect(not [a for a in ast.walk(iinit) if isinstance(a, ast.Assign)
+                and any(ast.unparse(t) in ("self.timeout", "self.timer", "self.store") for t in a.targets)],
+           "IncomerTls.__init__ must not reassign timeout/timer/store")
+    return out
 
 
 def generate(repo):
@@ -122,6 +222,17 @@ def generate(repo):
         lines.append("Definition %s_refreshes : bool := %s." % (k, b(table[k])))
     lines.append("Definition Valet_checks_cutoff : bool := %s." % b(shapes["Valet"]))
     lines.append("Definition Porter_checks_cutoff : bool := %s." % b(shapes["Porter"]))
+    path = config_path(srv, http)
+    lines.append("")
+    lines.append("(* configuration path of the idle timeout (defaults in 1/8 s) and of the clock *)")
+    lines.append("From Coq Require Import ZArith.")
+    for k in sorted(path):
+        if k.endswith("_x8"):
+            lines.append("Definition %s : Z := %d%%Z." % (k, path[k]))
+        else:
+            lines.append("Definition %s : bool := %s." % (k, b(path[k])))
+    table = dict(table)
+    table.update(path)
     lines.append("(* shapes verified by the translator: Incomer.refresh = timer.restart(); timer = StoreTimer(store,")
     lines.append("   duration=timeout); expired = stamp >= stop; restart: start = stamp, stop = start + duration;")
     lines.append("   idle test = ix.timeout > 0.0 and ix.timer.expired -> closeConnection(ca);")
